@@ -2,7 +2,10 @@
 (* Trace validator for C14. Unset aspect fields of an added face mean the CSS defaults.       *)
 (* Events (field ev): New, AddFace, SetQuery, SetScript, SetCache,   *)
 (* Resolve (r, got = 1-based index of the returned face in insertion order, 0 = nil,          *)
-(* -1 = panic; fresh = the same on a freshly built map with the same fonts/query/script).     *)
+(* -1 = panic; fresh = the same on a freshly built map with the same fonts/query/script;      *)
+(* plain = fact from the library's substitution tables: the expanded family list of the query  *)
+(* names no family of the map beyond the queried ones and no generic keyword - the documented  *)
+(* priority (FontMap.tla) is specified for that case only).                                    *)
 EXTENDS FontMap, TLC, Json, IOUtils
 VARIABLES l, db, query, script, memo, fails, stats
 Trace == ndJsonDeserialize(IOEnv.VERIF_TRACE)
@@ -35,7 +38,7 @@ Resolve ==
          allowed == IF Len(db) = 0 THEN {0} ELSE Allowed(db, query, script, e.r)
          bad == (IF e.got = -1 THEN {"Total"} ELSE {})
                 \cup (IF Len(db) > 0 /\ e.got = 0 THEN {"NonNil"} ELSE {})
-                \cup (IF e.got >= 0 /\ e.got \notin allowed THEN {"Priority"} ELSE {})
+                \cup (IF e.plain /\ e.got >= 0 /\ e.got \notin allowed THEN {"Priority"} ELSE {})
                 \cup (IF \E m \in memo : m[1] = key /\ m[2] # e.got THEN {"Functional"} ELSE {})
                 \cup (IF e.fresh # e.got THEN {"FreshEq"} ELSE {})
      IN /\ fails' = fails \cup {[line |-> l, pred |-> b] : b \in bad}
